@@ -130,7 +130,13 @@ AllVotes(rs) == \A j \in 1..Len(rs) : rs[j].vote
 AnyVote(rs) == \E j \in 1..Len(rs) : rs[j].vote
 ListHas(xs, v) == \E j \in 1..Len(xs) : PyEq(xs[j], v)
 
-RECURSIVE Ev(_, _, _), EvArgs(_, _, _), LA(_, _, _), EvFn(_, _, _), TallyStore(_, _, _, _)
+RECURSIVE Ev(_, _, _), Ev0(_, _, _), EvArgs(_, _, _), LA(_, _, _), EvFn(_, _, _), TallyStore(_, _, _, _)
+
+\* A Python exception raised while a function computes (mod by zero) unwinds to the enclosing match component
+\* (Expression.matches catches it): st.unwind is set where it is raised, nothing is evaluated and no composite acts while it is
+\* set, and the component boundary (Fold, LA) clears it; the component votes negative and one error is pending for Flush.
+Raise(st) == [st EXCEPT !.unwind = TRUE, !.pending = @ + 1]
+Unwound(st) == R(None, FALSE, st)
 
 \* arguments are evaluated left to right, all of them, before the function decides
 \* (Function.matches/to_value validate the argument values first: Matchable.sibling_values)
@@ -140,8 +146,9 @@ EvArgs(args, st, ctx) ==
            more == EvArgs(Tail(args), r.st, ctx)
        IN [rs |-> <<[val |-> r.val, vote |-> r.vote]>> \o more.rs, st |-> more.st]
 
-\* Expression.matches: the component's vote (an error beneath it would make it False)
-EvComp(comp, st, ctx) == Ev(comp, st, ctx)
+\* Expression.matches: the component's vote; an exception beneath it makes it False and ends here
+EvComp(comp, st, ctx) == LET r == Ev(comp, st, ctx)
+                         IN IF r.st.unwind THEN R(None, FALSE, [r.st EXCEPT !.unwind = FALSE]) ELSE r
 
 \* Qualified.line_matches: the onmatch look-ahead over all OTHER top-level components, in order,
 \* memoising their votes, stopping at the first negative, raising the match count on success.
@@ -181,7 +188,8 @@ EvFn(node, st0, ctx) ==
       N == Len(rs)
       vname(dflt) == IF node.name_q = "" THEN dflt ELSE node.name_q
   IN
-  IF ~active THEN
+  IF ea.st.unwind THEN Unwound(ea.st)
+  ELSE IF ~active THEN
        \* Function.matches: default vote, no effect.  to_value: the default value
        \* (None; sum() gives the running sum)
        R(IF nm = "sum" THEN GetVar(la.st.vars, vname("sum")) ELSE None, D, la.st)
@@ -245,7 +253,8 @@ EvFn(node, st0, ctx) ==
     [] nm = "collect" ->     \* collect(h, ...): from now on the caller receives only these cells, in this order
           R(None, D, [st EXCEPT !.limit = [j \in 1..N |-> HdrIndex([val |-> A(j)], st.headers)]])
     [] nm = "strip"  -> R(VStr(Strip(StrOf(A(1)))), D, st)
-    [] nm = "mod"    -> R(VFloat(NumOf(A(1)) % NumOf(A(2))), D, st)
+    [] nm = "mod"    -> IF NumOf(A(2)) = 0 THEN Unwound(Raise(st))            \* ZeroDivisionError
+                        ELSE R(VFloat(NumOf(A(1)) % NumOf(A(2))), D, st)
     [] nm = "int"    -> R(IF A(1).t = "none" THEN None ELSE VInt(NumOf(A(1))), D, st)
     [] nm = "firstscan" -> R(VBool(st.scanCount = 1), st.scanCount = 1, st)
     [] nm = "firstline" -> R(VBool(ctx.k = 0), ctx.k = 0, st)
@@ -381,7 +390,7 @@ EvFn(node, st0, ctx) ==
     [] nm = "valid"   -> R(VBool(st.valid), st.valid, st)
     [] nm = "last"    -> LET b == ctx.k = ctx.endNum \/ ctx.lastScan
                          IN IF b /\ Len(node.args) = 1
-                              THEN R(VBool(b), b, Ev(node.args[1], st, ctx).st)
+                              THEN LET a == Ev(node.args[1], st, ctx) IN IF a.st.unwind THEN Unwound(a.st) ELSE R(VBool(b), b, a.st)
                               ELSE R(VBool(b), b, st)
     [] nm = "print"   ->
           \* qualifiers: once (at most one execution per run; its marker is a hash-named variable,
@@ -398,11 +407,13 @@ EvFn(node, st0, ctx) ==
           IN IF blocked THEN R(None, D, st)
              ELSE LET st1 == [st EXCEPT !.printed = Append(st.printed, out),
                                         !.onceDone = IF Has(node, "once") THEN @ \cup {node.name_q} ELSE @]
-                  IN R(None, D, IF follow THEN Ev(node.args[2], st1, ctx).st ELSE st1)
+                  IN IF follow THEN LET f == Ev(node.args[2], st1, ctx) IN (IF f.st.unwind THEN Unwound(f.st) ELSE R(None, D, f.st))
+                     ELSE R(None, D, st1)
     [] OTHER -> R(None, D, st)
 
 \* ---- nodes ---------------------------------------------------------------------------------------
-Ev(node, st, ctx) ==
+Ev(node, st, ctx) == IF st.unwind THEN Unwound(st) ELSE Ev0(node, st, ctx)
+Ev0(node, st, ctx) ==
   CASE node.k = "term" -> R(node.val, TRUE, st)
     [] node.k = "hdr" ->
          LET raw == HdrRaw(node, st)
@@ -416,14 +427,15 @@ Ev(node, st, ctx) ==
          LET l == Ev(node.args[1], st, ctx)
              r == Ev(node.args[2], l.st, ctx)
              b == LangEq(l.val, r.val)
-         IN R(VBool(b), b, r.st)
+         IN IF r.st.unwind THEN Unwound(r.st) ELSE R(VBool(b), b, r.st)
     [] node.k = "when" ->
          LET l == Ev(node.args[1], st, ctx)
              nc == Has(node.args[1], "nocontrib")
-         IN IF l.vote
+         IN IF l.st.unwind THEN Unwound(l.st)
+            ELSE IF l.vote
               THEN LET r == Ev(node.args[2], l.st, ctx)
                        b == IF ~ctx.AND /\ nc THEN FALSE ELSE TRUE
-                   IN R(VBool(b), b, r.st)
+                   IN IF r.st.unwind THEN Unwound(r.st) ELSE R(VBool(b), b, r.st)
               ELSE LET b == IF ~ctx.AND /\ nc THEN FALSE ELSE nc
                    IN R(VBool(b), b, l.st)
     [] node.k = "assign" ->
@@ -439,7 +451,7 @@ Ev(node, st, ctx) ==
              vars2 == IF ~d.write THEN la.st.vars
                       ELSE IF var.track.t = "none" THEN SetVar(la.st.vars, var.name, y)
                       ELSE SetTracked(la.st.vars, var.name, var.track, y)
-         IN R(VBool(d.vote), d.vote, [la.st EXCEPT !.vars = vars2])
+         IN IF rhs.st.unwind THEN Unwound(rhs.st) ELSE R(VBool(d.vote), d.vote, [la.st EXCEPT !.vars = vars2])
     [] node.k = "fn" -> EvFn(node, st, ctx)
     \* an error-provoking component (rendered add(#c, 1)): a numeric function over a cell that need not be a number. On a
     \* numeric or absent cell it is add(); otherwise its argument validation fails: the component votes negative, nothing else
@@ -475,7 +487,7 @@ RECURSIVE DoLasts(_, _, _)
 DoLasts(i, st, ctx) ==
   IF i > Len(ctx.comps) THEN st
   ELSE IF IsLastComp(ctx.comps[i])
-    THEN DoLasts(i + 1, Ev(ctx.comps[i], [st EXCEPT !.cur = i], ctx).st, ctx)
+    THEN DoLasts(i + 1, EvComp(ctx.comps[i], [st EXCEPT !.cur = i], ctx).st, ctx)
     ELSE DoLasts(i + 1, st, ctx)
 
 \* Matcher.clear_errors: when the line has been evaluated (on every way out of Matcher.matches) the pending errors are handed to
